@@ -49,14 +49,14 @@ def renderCall (name args : String) : Option String :=
   match name, a with
   | "ur", [sig] => do
     let s ← ofHex sig
-    let (x, y) ← toBigInt s
+    let (x, y) := toBigInt s
     pure s!"to=proxy m=updateRandomness args={mod256 x},{mod256 y}"
   | "dr", [sig, rid, idx, content] => do
     let s ← ofHex sig
     let r ← ofHex rid
     let i ← idx.toNat?
     let c ← parseContent content
-    let (x, y) ← toBigInt s
+    let (x, y) := toBigInt s
     pure s!"to=proxy m=triggerCallback args={mod256 (requestId r)},{trafficType i},{c.length}:{adler32 c},{mod256 x},{mod256 y}"
   | "rg", [d0, d1, d2, d3, d4] => do
     let v ← [d0, d1, d2, d3, d4].mapM String.toNat?
@@ -106,9 +106,8 @@ def step (line : String) : String :=
   | ["sig", s] =>
     match ofHex s with
     | some b =>
-      match toBigInt b with
-      | some (x, y) => s!"ok {x} {y}"
-      | none => "panic"
+      let (x, y) := toBigInt b
+      s!"ok {x} {y}"
     | none => "bad-op"
   | "pk" :: s :: _ =>
     match ofHex s with
